@@ -6,6 +6,8 @@ import DsdVerif.Gen.LegacyIupac
 import DsdVerif.Spec.Iupac
 import DsdVerif.Props.C20Legacy
 import DsdVerif.Props.C20Wrappers
+import DsdVerif.Props.C20Full
+import DsdVerif.Props.C20FullViews
 
 namespace Dsd.C20
 open Dsd.Iupac
